@@ -110,15 +110,15 @@ macro_rules! lay_h {
         }
     };
 }
-//@ prop=C08 tier=quick cost=300 fns="Mp4Writer::finalize,finalize_standard,SampleTables::from_samples" bound="standard, video-only, 2 samples, all pts < 2^31" unwind=6 stubs="build_moov_box(recording stand-in)" timeout=1200
+//@ prop=C08 tier=thorough cost=300 fns="Mp4Writer::finalize,finalize_standard,SampleTables::from_samples" bound="standard, video-only, 2 samples, all pts < 2^31" unwind=6 stubs="build_moov_box(recording stand-in)" timeout=1200
 lay_h!(c08_std_v2, 2, 0, false, false, 8, 6);
 //@ prop=C08 tier=quick cost=300 fns="Mp4Writer::finalize,finalize_fast_start,SampleTables::from_samples" bound="fast start, video-only, 2 samples, moov length 8" unwind=6 stubs="build_moov_box(recording stand-in)" timeout=1200
 lay_h!(c08_fast_v2_pad0, 2, 0, true, false, 8, 6);
-//@ prop=C08 tier=quick cost=300 fns="Mp4Writer::finalize,finalize_fast_start,SampleTables::from_samples" bound="fast start, video-only, 2 samples, moov length 13 (longer metadata moves the media data)" unwind=6 stubs="build_moov_box(recording stand-in)" timeout=1200
+//@ prop=C08 tier=thorough cost=300 fns="Mp4Writer::finalize,finalize_fast_start,SampleTables::from_samples" bound="fast start, video-only, 2 samples, moov length 13 (longer metadata moves the media data)" unwind=6 stubs="build_moov_box(recording stand-in)" timeout=1200
 lay_h!(c08_fast_v2_pad5, 2, 0, true, false, 13, 6);
 //@ prop=C08 tier=quick cost=400 fns="Mp4Writer::finalize,finalize_standard,compute_interleave_schedule" bound="standard, 1 video + 1 audio sample" unwind=6 stubs="build_moov_box(recording stand-in)" timeout=1200 
 lay_h!(c08_std_v1a1, 1, 1, false, true, 8, 6);
-//@ prop=C08 tier=quick cost=500 fns="Mp4Writer::finalize,finalize_fast_start,compute_interleave_schedule" bound="fast start, 1 video + 1 audio sample, moov length 13" unwind=6 stubs="build_moov_box(recording stand-in)" timeout=1200
+//@ prop=C08 tier=thorough cost=500 fns="Mp4Writer::finalize,finalize_fast_start,compute_interleave_schedule" bound="fast start, 1 video + 1 audio sample, moov length 13" unwind=6 stubs="build_moov_box(recording stand-in)" timeout=1200
 lay_h!(c08_fast_v1a1_pad5, 1, 1, true, true, 13, 6);
 //@ prop=C08 tier=thorough cost=900 fns="Mp4Writer::finalize,finalize_standard,compute_interleave_schedule" bound="standard, 2 video + 1 audio samples" unwind=6 stubs="build_moov_box(recording stand-in)" timeout=3000 mem=30
 lay_h!(c08_std_v2a1, 2, 1, false, true, 8, 6);
